@@ -28,6 +28,15 @@ import (
 
 const repoDir = "/repo"
 
+// srcDir is where the sources to instrument are read from: /repo, or a snapshot of it for
+// background runs (VERIF_REPO); the overlay always targets /repo, which go.mod replaces.
+var srcDir = func() string {
+	if d := os.Getenv("VERIF_REPO"); d != "" {
+		return d
+	}
+	return repoDir
+}()
+
 // verifDir is /verif; background runs from a snapshot (vp run) set VERIF_DIR.
 var verifDir = func() string {
 	if d := os.Getenv("VERIF_DIR"); d != "" {
@@ -73,10 +82,17 @@ func build(work string) string {
 	instr := filepath.Join(work, "instr")
 	os.RemoveAll(instr)
 	os.MkdirAll(instr, 0o755)
-	ov, stats, err := vinstr.Run(repoDir, instr, "verif/vrt", []string{
+	ov, stats, err := vinstr.Run(srcDir, instr, "verif/vrt", []string{
 		"github.com/tsuna/gohbase", "github.com/tsuna/gohbase/region", "github.com/tsuna/gohbase/hrpc"})
 	if err != nil {
-		die("instrumenting /repo failed: %v", err)
+		die("instrumenting %s failed: %v", srcDir, err)
+	}
+	if srcDir != repoDir {
+		re := map[string]string{}
+		for k, v := range ov {
+			re[repoDir+strings.TrimPrefix(k, srcDir)] = v
+		}
+		ov = re
 	}
 	// in-package harness files
 	ents, _ := filepath.Glob(filepath.Join(verifDir, "_inpkg", "*", "*.go"))
